@@ -279,7 +279,8 @@ PROPS["C04"] = dict(
     level_note="Wall-clock bound is proved as a step bound (timer firings) and measured with generous slack, not proved in real time. Trusted: the "
                "hand-written protocol model (no automatic tie between CleanerProto.v and buffer.go other than the sweep), sync.Cond notify-list semantics, "
                "instrumenter inserts calls only.",
-    stages=[corr_stage("C04TRACE", 150, 1500, params=c04_trace_params, instrument=True,
+    stages=[corr_stage("C04BIG", 12, 100, validate=False),
+            corr_stage("C04TRACE", 150, 1500, params=c04_trace_params, instrument=True,
                        feature=lambda tok: " ".join(tok[3:40]) if tok[0] == "F" else None),
             corr_stage("C04T", 2, 6, feature=lambda tok: tok[2] if (tok[0] == "K2" and "-p" in tok[2]) else None, instrument=True, shards=12,
                        params={"points": 12}, tparams={"points": 1000}, timeout=1200)],
@@ -880,6 +881,7 @@ _EXCL_STAGES = lambda: [
     corr_stage("C09K1", 1000, 6000, feature=feat_c09, seeds=3),
     corr_stage("C09K2", 800, 5000, feature=feat_c09, seeds=3),
     corr_stage("C09S", 6, 20, feature=feat_c09, instrument=True, shards=6, tparams={"points": 1000}),
+    corr_stage("C09RATE", 150, 1500, validate=False),
 ]
 
 PROPS["C09"] = dict(
